@@ -100,7 +100,11 @@ func (p *Promise) Force(ctx context.Context) (ok bool, err error) {
 
 			// If cut, we eliminate other possibilities.
 			if p.cutParent != nil {
-				stack.popUntil(p.cutParent)
+				if stack.popUntil(p.cutParent) {
+					// Keep the cut parent as a marker without choices so that the subsequent cuts in the same clause can find it.
+					p.cutParent.delayed = nil
+					stack = append(stack, p.cutParent)
+				}
 				p.cutParent = nil // we don't have to do this again when we revisit.
 			}
 
@@ -140,12 +144,23 @@ func (s *promiseStack) pop() *Promise {
 	return p
 }
 
-func (s *promiseStack) popUntil(p *Promise) {
-	for len(*s) > 0 {
-		if pop := s.pop(); pop == p {
-			break
+func (s *promiseStack) popUntil(p *Promise) bool {
+	if p == &dummyCutParent { // no cut parent: eliminates all the choices.
+		for len(*s) > 0 {
+			s.pop()
 		}
+		return false
 	}
+	for i := len(*s) - 1; i >= 0; i-- {
+		if (*s)[i] != p {
+			continue
+		}
+		for len(*s) > i {
+			s.pop()
+		}
+		return true
+	}
+	return false
 }
 
 func (s *promiseStack) recover(err error) error {
